@@ -401,9 +401,11 @@ class LogWarperComponent(OutputWarper):
     labels_arr = labels_arr.flatten()
     finite_mask = np.isfinite(labels_arr)
 
-    norm_diff = (self._labels_max - labels_arr[finite_mask]) / (
-        self._labels_max - self._labels_min
-    )
+    labels_range = self._labels_max - self._labels_min
+    if labels_range == 0:
+      # A single distinct finite label: each label is the best one (not 0 / 0).
+      labels_range = 1.0
+    norm_diff = (self._labels_max - labels_arr[finite_mask]) / labels_range
     labels_arr[finite_mask] = 0.5 - (
         np.log1p(norm_diff * (self.offset - 1)) / np.log(self.offset)
     )
